@@ -205,6 +205,29 @@ impl Check for C15 {
                 }
             }
         }
+        if kind == 0 && d.chance(40) {
+            // look-around syntax that is the printed form of a legal configuration: pattern P with
+            // a Lookahead member L is built first (through the cache), then the same configuration
+            // with the pattern text `P(?=L)` / `P(?!L)` and no member - it must still be rejected
+            let mi = d.below(modes.len());
+            let pi = d.below(modes[mi].pats.len());
+            if modes[mi].pats[pi].la.is_none() {
+                modes[mi].pats[pi].la = Some(LaSpec {
+                    positive: d.bool(),
+                    rx: Rx::Lit(gen::gen_char(d), rx::LitForm::Verbatim),
+                });
+            }
+            let twin: Vec<serde_json::Value> = modes.iter().map(|m| m.to_json()).collect();
+            let la = modes[mi].pats[pi].la.take().unwrap();
+            let text = format!(
+                "{}(?{}{})",
+                rx::print(&modes[mi].pats[pi].rx),
+                if la.positive { "=" } else { "!" },
+                rx::print(&la.rx)
+            );
+            modes[mi].pats[pi].rx = Rx::Raw(text);
+            extra = json!({"kind": "lookaround_twin", "twin_modes": twin, "slot": [mi, pi, false]});
+        }
         Case {
             modes,
             extra,
@@ -212,6 +235,14 @@ impl Check for C15 {
         }
     }
     fn check(&self, case: &Case) -> CheckResult {
+        if let Some(twin) = case.extra.get("twin_modes").and_then(|v| v.as_array()) {
+            // the legal twin is built (and cached) first; its verdict is not this case's business
+            let modes: Result<Vec<ModeSpec>, String> = twin.iter().map(ModeSpec::from_json).collect();
+            if let Ok(modes) = modes {
+                let t = Case { modes, ..Case::default() };
+                let _ = guard(|| t.build().map(|_| ()));
+            }
+        }
         if case.modes.is_empty() || case.modes.iter().any(|m| m.pats.is_empty()) {
             return Ok(discard("discard_shape"));
         }
